@@ -6,6 +6,7 @@ import Adb.Model.RegexCache
 import Adb.Model.Scriptlet
 import Adb.Spec.Pattern
 import Adb.Spec.Options
+import Adb.Model.Wire
 /-
   One-line-in / one-line-out driver.  Every answer has the form  `M=<model> S=<spec> D=<0|1>`:
   the output of the model that mirrors the code, the output of the reference semantics, and whether
@@ -174,6 +175,13 @@ def step (line : String) : String :=
       let o := o.replace " " "/"
       ans o o (isAsciiStr host)
     | _, _, _ => "bad-op"
+  -- C10: header dispatch
+  | ["disp", b] => match hexToBytes b.toList with
+      | some bs =>
+        let o := match Wire.dispatch (bs.map (·.toNat)) with
+          | .v0 => "v0" | .unsupportedVersion v => s!"version-{v}" | .noHeader => "no-header" | .legacyGzip => "legacy-gzip"
+        ans o o true
+      | none => "bad-op"
   | "rmseq" :: ops =>
     match ops.foldlM rmOp (({} : Cache.RM), [], [], [], true) with
     | some (_, _, outs, specs, noReuse) =>
